@@ -214,7 +214,7 @@ static void scenario_pure(void) {
 static void scenario_manage(void) {
   size_t msize = 12 * BLK;
   int made = 0;
-  const int rounds = THOROUGH ? 60 : 24;
+  const int rounds = THOROUGH ? 48 : 24;
   uint8_t* scratch = map_noreserve(msize);
   uint8_t* al = (uint8_t*)_mi_align_up((uintptr_t)scratch, BLK);
   // refused requests never create an arena: the same mapping serves all of them
@@ -468,10 +468,10 @@ int main(int argc, char** argv) {
       fflush(stdout);
       pid_t pid = fork();
       if (pid == 0) {
-        // resource bounds of one scenario (a broken allocator may loop reserving segments): 24 GiB of address space (the
+        // resource bounds of one scenario (a broken allocator may loop reserving segments): 40 GiB of address space (the
         // arenas are MAP_NORESERVE mappings that are barely touched), no transparent huge pages (touching 64 KiB of a fresh
         // segment must not make 2 MiB resident), 90 s (quick) / 300 s of wall time, and death with the parent
-        struct rlimit rl; rl.rlim_cur = rl.rlim_max = (rlim_t)24 << 30; setrlimit(RLIMIT_AS, &rl);
+        struct rlimit rl; rl.rlim_cur = rl.rlim_max = (rlim_t)40 << 30; setrlimit(RLIMIT_AS, &rl);
         prctl(PR_SET_THP_DISABLE, 1, 0, 0, 0);
         prctl(PR_SET_PDEATHSIG, SIGKILL);
         alarm(THOROUGH ? 300 : 90);
